@@ -8,6 +8,7 @@ package crashfs
 import (
 	"crypto/sha256"
 	"encoding/hex"
+	"errors"
 	"fmt"
 	"io"
 	"os"
@@ -46,9 +47,42 @@ type FS struct {
 	log    []Op
 	nextID int
 	names  map[int]string
+
+	// fault injection ("durable storage stops accepting writes"): the FailAt-th mutating attempt
+	// (counted from 0 over create/write/sync/rename/remove/mkdir/link) and every later one fails.
+	//   "readonly": every mutating operation is refused (a read-only remount, EIO)
+	//   "nospace":  operations that need space (create, write, mkdir, link) are refused; sync,
+	//               rename and remove still work (ENOSPC, EDQUOT)
+	//   "short":    as "nospace", but the first refused write stores half of its bytes first
+	FailAt   int
+	FailMode string
+	attempts int
 }
 
-func New() *FS { return &FS{FS: vfs.NewMem(), names: map[int]string{}} }
+// ErrInjected is what a refused operation returns.
+var ErrInjected = errors.New("injected fault: storage does not accept this operation")
+
+func New() *FS { return &FS{FS: vfs.NewMem(), names: map[int]string{}, FailAt: -1} }
+
+// Attempts returns the number of mutating attempts made so far.
+func (f *FS) Attempts() int { f.mu.Lock(); defer f.mu.Unlock(); return f.attempts }
+
+// refuse counts one mutating attempt of the given kind and says whether it is refused; first is
+// true for the very first refused attempt. Callers hold f.mu.
+func (f *FS) refuse(kind string) (refused, first bool) {
+	idx := f.attempts
+	f.attempts++
+	if f.FailAt < 0 || idx < f.FailAt {
+		return false, false
+	}
+	if f.FailMode != "readonly" {
+		switch kind {
+		case "sync", "rename", "remove", "removeall":
+			return false, false
+		}
+	}
+	return true, idx == f.FailAt
+}
 
 // Len returns the current length of the log.
 func (f *FS) Len() int { f.mu.Lock(); defer f.mu.Unlock(); return len(f.log) }
@@ -69,6 +103,9 @@ func (f *FS) newHandle(kind, name, newName string, inner vfs.File) vfs.File {
 func (f *FS) Create(name string) (vfs.File, error) {
 	f.mu.Lock()
 	defer f.mu.Unlock()
+	if r, _ := f.refuse("create"); r {
+		return nil, ErrInjected
+	}
 	in, err := f.FS.Create(name)
 	if err != nil {
 		return nil, err
@@ -105,6 +142,9 @@ func (f *FS) OpenDir(name string) (vfs.File, error) {
 func (f *FS) ReuseForWrite(oldname, newname string) (vfs.File, error) {
 	f.mu.Lock()
 	defer f.mu.Unlock()
+	if r, _ := f.refuse("create"); r {
+		return nil, ErrInjected
+	}
 	in, err := f.FS.ReuseForWrite(oldname, newname)
 	if err != nil {
 		return nil, err
@@ -114,6 +154,9 @@ func (f *FS) ReuseForWrite(oldname, newname string) (vfs.File, error) {
 func (f *FS) Remove(name string) error {
 	f.mu.Lock()
 	defer f.mu.Unlock()
+	if r, _ := f.refuse("remove"); r {
+		return ErrInjected
+	}
 	err := f.FS.Remove(name)
 	if err == nil {
 		f.add(Op{Kind: "remove", Name: name})
@@ -123,6 +166,9 @@ func (f *FS) Remove(name string) error {
 func (f *FS) RemoveAll(name string) error {
 	f.mu.Lock()
 	defer f.mu.Unlock()
+	if r, _ := f.refuse("removeall"); r {
+		return ErrInjected
+	}
 	err := f.FS.RemoveAll(name)
 	if err == nil {
 		f.add(Op{Kind: "removeall", Name: name})
@@ -132,6 +178,9 @@ func (f *FS) RemoveAll(name string) error {
 func (f *FS) Rename(o, n string) error {
 	f.mu.Lock()
 	defer f.mu.Unlock()
+	if r, _ := f.refuse("rename"); r {
+		return ErrInjected
+	}
 	err := f.FS.Rename(o, n)
 	if err == nil {
 		f.add(Op{Kind: "rename", Name: o, New: n})
@@ -141,6 +190,9 @@ func (f *FS) Rename(o, n string) error {
 func (f *FS) Link(o, n string) error {
 	f.mu.Lock()
 	defer f.mu.Unlock()
+	if r, _ := f.refuse("link"); r {
+		return ErrInjected
+	}
 	err := f.FS.Link(o, n)
 	if err == nil {
 		f.add(Op{Kind: "link", Name: o, New: n})
@@ -150,6 +202,9 @@ func (f *FS) Link(o, n string) error {
 func (f *FS) MkdirAll(dir string, perm os.FileMode) error {
 	f.mu.Lock()
 	defer f.mu.Unlock()
+	if r, _ := f.refuse("mkdir"); r {
+		return ErrInjected
+	}
 	err := f.FS.MkdirAll(dir, perm)
 	if err == nil {
 		f.add(Op{Kind: "mkdirall", Name: dir})
@@ -175,6 +230,17 @@ type file struct {
 func (h *file) Write(p []byte) (int, error) {
 	h.fs.mu.Lock()
 	defer h.fs.mu.Unlock()
+	if r, first := h.fs.refuse("write"); r {
+		if first && h.fs.FailMode == "short" && len(p) > 1 {
+			half := append([]byte(nil), p[:len(p)/2]...)
+			n, err := h.File.Write(half)
+			if err == nil {
+				h.fs.add(Op{Kind: "write", ID: h.id, Data: half})
+			}
+			return n, ErrInjected
+		}
+		return 0, ErrInjected
+	}
 	cp := append([]byte(nil), p...)
 	n, err := h.File.Write(p)
 	if err == nil {
@@ -185,6 +251,9 @@ func (h *file) Write(p []byte) (int, error) {
 func (h *file) WriteAt(p []byte, off int64) (int, error) {
 	h.fs.mu.Lock()
 	defer h.fs.mu.Unlock()
+	if r, _ := h.fs.refuse("write"); r {
+		return 0, ErrInjected
+	}
 	cp := append([]byte(nil), p...)
 	n, err := h.File.WriteAt(p, off)
 	if err == nil {
@@ -195,6 +264,9 @@ func (h *file) WriteAt(p []byte, off int64) (int, error) {
 func (h *file) Sync() error {
 	h.fs.mu.Lock()
 	defer h.fs.mu.Unlock()
+	if r, _ := h.fs.refuse("sync"); r {
+		return ErrInjected
+	}
 	err := h.File.Sync()
 	if err == nil {
 		h.fs.add(Op{Kind: "sync", ID: h.id})
